@@ -80,6 +80,7 @@ def run_impl(lat, acc, h):
     classes = make_classes(lat)
     saved = list(PP._PREDICATE_REGISTRY)
     obs = []
+    pred_objs = {}
     try:
         with warnings.catch_warnings():
             warnings.simplefilter('ignore')
@@ -91,8 +92,12 @@ def run_impl(lat, acc, h):
                     register_pretty(PP.get_deferred_key(classes[op[1]]))(lambda v, ctx, _t='P%d' % op[2]: _t)
                     obs.append('-')
                 elif op[0] == 'rp':
-                    S = tuple(classes[k] for k in acc[op[1]])
-                    register_pretty(predicate=lambda v, _S=S: type(v) in _S)(lambda v, ctx, _t='P%d' % op[2]: _t)
+                    # ONE predicate object per accepted set within a history: registering it again (with the
+                    # same or another printer) adds a later entry and leaves the first-registered one first
+                    if op[1] not in pred_objs:
+                        S = tuple(classes[k] for k in acc[op[1]])
+                        pred_objs[op[1]] = lambda v, _S=S: type(v) in _S
+                    register_pretty(predicate=pred_objs[op[1]])(lambda v, ctx, _t='P%d' % op[2]: _t)
                     obs.append('-')
                 elif op[0] == 'pr':
                     try:
